@@ -467,7 +467,16 @@ class H(Harness):
                 out.append(c)
             else:
                 out.append(self._one(rnd, model, stream))
-        return out
+        # interleave with the exhaustive small scope so that the coqc shards are of even size
+        ex = self._all_histories(3 if tier == 'thorough' else 2)
+        mixed = []
+        step = max(1, len(ex) // max(1, len(out)))
+        j = 0
+        for i, e in enumerate(ex):
+            mixed.append(e)
+            if i % step == step - 1 and j < len(out):
+                mixed.append(out[j]); j += 1
+        return mixed + out[j:]
 
     def _variant(self, rnd, c):
         """Another history that reaches the same network state: reach the final state of history a
@@ -520,8 +529,12 @@ class H(Harness):
                 c = dict(base); c['stream'] = nm
                 c['ops'] = [[o[0], o[1], o[2] % k] if o[0] in ('set', 'change', 'addnode') and o[2] is not None else list(o) for o in ops]
                 out.append(c)
-        # all histories over a 3-node universe from a two-node network (node 2 can be added)
-        depth = 3 if tier == 'thorough' else 2
+        return out
+
+    def _all_histories(self, depth):
+        """all histories of `depth` calls over a 3-node universe from a two-node network (node 2 can be
+        added) for the SIR and Opinion tables; the states after the shorter prefixes are compared too"""
+        out = []
         U = [0, 1, 2]
         for model, init in [('SIR', [0, 1]), ('Opinion', [1, 1])]:
             k = 3
